@@ -51,6 +51,26 @@ CLAIMED = {
     note='Trusted: TLC, BigNat; Al=SS=8 for P\'>=64 else 1 is the crate\'s choice; outside "a valid configuration exists" any outcome is accepted.',
     technique='TLC-enumerated boundary cases with spec invariants, replayed on the derivation (spec->impl) + TLC trace validation (impl->spec)',
     design='4/C14'),
+ 'C13': dict(
+    category='model_checking',
+    text='The byte layouts are TLA+ operators; TLC checks on the spec that parsing inverts serialising and that re-serialising a '
+         'parsed buffer reproduces it except for the reserved byte, over an enumeration that sweeps every byte position through all '
+         '256 values (the layouts are byte-wise independent). All ~27 000 cases are replayed on the real types (spec->impl) and '
+         'random values/buffers are validated by a TLC trace spec (impl->spec).',
+    note='Trusted: TLC; byte-wise independence of the layouts as the argument why the sweep covers the 2^32 / 2^88 spaces.',
+    technique='TLC-enumerated wire cases replayed on serialise/parse + TLC trace validation of random values and buffers',
+    design='4/C13'),
+ 'C15': dict(
+    category='model_checking',
+    text='MC_Params checks the Table-2 relations for all 477 rows exhaustively (S, W prime; P1 least prime >= P; B>=1; P>=H>=2; '
+         'L<65536; K\' strictly increasing) and solves, by modular inversion on byte limbs, for every internal symbol ID at which '
+         'the 32-bit value y wraps - the complete list of inputs where an overflow-checked build can differ. Those and tens of '
+         'thousands of (K\',X) pairs are run through the real functions in optimised and overflow-checked builds and validated '
+         'by TLC against Tuple[K\',X] and the range conditions; a panic is never accepted.',
+    note='Trusted: TLC, frozen tables, Nat32 limb arithmetic (checked by the WrapSolved invariant). Not all 8*10^9 pairs are run: '
+         'the wrap analysis covers the only data-dependent hazard, sampling covers the rest.',
+    technique='TLC exhaustive check of Table 2 + TLC-solved boundary inputs replayed in two build profiles + TLC trace validation of tuples',
+    design='4/C15'),
 }
 
 NOT_YET = 'check not built yet in this round (work in progress; see DESIGN.md section 8 for the order of work)'
@@ -76,7 +96,7 @@ def main():
     na = [{'property_id': p, 'reason': NA.get(p, NOT_YET)} for p in ALL if p not in CLAIMED]
     man = {
         'version': 1,
-        'setup_cmd': 'cd /verif/harness && cargo build --offline --release 2>&1 | tail -3',
+        'setup_cmd': 'cd /verif/harness && cargo build --offline --release 2>&1 | tail -3 && cargo build --offline --profile checked 2>&1 | tail -3',
         'hooks': {
             'guard': '--cfg raptorq_verif',
             'enable': 'harness/.cargo/config.toml passes rustflags --cfg raptorq_verif; the harness depends on /repo by path '
@@ -103,7 +123,7 @@ def main():
 
 NA = {}
 HOOK_COMMITS = ['7b4caa9', '4fb854c']
-FIX_COMMITS = ['e1f7f98', '497f892', 'c3da831']
+FIX_COMMITS = ['e1f7f98', '497f892', 'c3da831', 'ae71c22']
 
 if __name__ == '__main__':
     main()
